@@ -189,7 +189,7 @@ func (w *World) checkNewEntry(n *node, e *sEnt, post *raft.VerifState, kind stri
 			w.violate("C20", nil, "node %d holds entry %d (term %d) with payload %q that was never proposed", n.id, e.Index, e.Term, trunc(e.Data))
 			return
 		}
-		if p.dropped && p.accepted == 0 && p.delivered == 0 {
+		if p.dropped && p.accepted == 0 {
 			w.violate("C20", nil, "node %d holds entry %d with payload %q whose Propose returned ErrProposalDropped", n.id, e.Index, trunc(e.Data))
 		}
 	case isConfType(e.Type) && len(e.Data) > 0:
@@ -779,6 +779,13 @@ func (w *World) wireMon(n *node, msg *pb.Message, meta *msgMeta) {
 				w.violate("C05", []string{"C06"}, "acknowledgement %d->%d for index %d (term %d) handed to the network while the sender's disk ends at %d (durable term %d) and does not hold that prefix", n.id, msg.GetTo(), msg.GetIndex(), msg.GetTerm(), d.lastIndex(), dterm)
 			}
 		}
+	case pb.MsgProp:
+		for _, e := range msg.GetEntries() {
+			if p := m.proposals[string(e.GetData())]; p != nil && p.dropped && p.accepted == 0 && e.GetType() == pb.EntryNormal {
+				w.violate("C20", nil, "node %d forwards proposal %q to %d although its Propose call returned ErrProposalDropped", n.id, trunc(e.GetData()), msg.GetTo())
+			}
+		}
+		w.Stats["msgprop-on-wire"]++
 	case pb.MsgVote:
 		k := [2]uint64{n.id, msg.GetTerm()}
 		if inc, ok := m.campaigned[k]; ok && inc != n.inc {
